@@ -11,6 +11,8 @@ from vlib import w as W
 from vlib.core import Ob
 
 PROPERTY_ID = "C09"
+ENGINE = 'E1 CrossHair 0.0.110 (z3) + E2 psx for root_at_midpoint'
+TECHNIQUE = 'CrossHair symbolic execution of the real tree transformations on every small shape with symbolic positive branch lengths (tip set, every path length, split set, receiver untouched) and with a symbolic node name through the JSON / Newick text routes; root_at_midpoint by proxy execution on z3 reals with every feasible ordering closed by z3'
 CLAIM = (
     "for every enumerated tree shape and ALL positive branch lengths: copy / re-root / unroot / sort / sub-tree / prune keep the tip set, "
     "every tip-to-tip path length and the unrooted split set, leave the receiver untouched, and get_distances equals a parent-pointer walk."
